@@ -288,6 +288,21 @@ func ext۰strings۰EqualFold(fr *frame, args []value) value {
 	return strings.EqualFold(args[0].(string), args[1].(string))
 }
 func ext۰strings۰IndexByte(fr *frame, args []value) value {
+	if s, ok := args[0].(symStr); ok {
+		// case split on the position of the first occurrence (concrete result per path)
+		c := byteTerm(args[1])
+		var before []string
+		for i := 0; i < len(s.b); i++ {
+			here := mkAnd(append(append([]string{}, before...),
+				fmt.Sprintf("(bvsgt %s %s)", lenTerm(s.n), bvConst(uint64(i), 64)),
+				fmt.Sprintf("(= %s %s)", byteTerm(s.b[i]), c))...)
+			if cur.branch(here) {
+				return i
+			}
+			before = append(before, fmt.Sprintf("(not (= %s %s))", byteTerm(s.b[i]), c))
+		}
+		return -1
+	}
 	return strings.IndexByte(args[0].(string), args[1].(byte))
 }
 
